@@ -11,11 +11,13 @@ What is modelled (mirrors the code THAT EXISTS, including its quirks):
   (`none` = error; `some tok` = canonical rendering of the parsed value). The harness supplies
   the graph of the REAL parsers on the values it uses.
 * `strings.ToLower` → `Ctx.lower` (the driver instantiates it with ASCII lower-casing).
-* The Go map `sourceToRawConfig[source]` is an ordered key list: the model iterates it in list
-  order; Go iterates in an arbitrary order (see `Props/C27.lean` for what does / does not depend on it).
+* The Go map `sourceToRawConfig[source]` is a key list in ARBITRARY order; `resolve` visits the keys
+  in sorted order of the raw names (`slices.Sorted(maps.Keys(rawConfig))`): `sortKeys` (merge sort by
+  `Ctx.keyLe`, which the driver instantiates with the byte-wise string order Go uses).
 * Field values are abstract: `Val.parsed tok | Val.zero | Val.dflt`; a field that no source set is
   absent from `St.fields` (it keeps what `applyDefaults` wrote).
-* `resolve` returns early on a fatal parse failure: `none`.
+* A key of a source below the one that already set the parameter is skipped BEFORE it is parsed
+  (commit be6f163); `resolve` returns early on a fatal value of a key that is not skipped: `none`.
 
 Core Lean only (linked into the driver executable).
 -/
@@ -62,6 +64,8 @@ structure Ctx where
   lower : String → String
   known : String → Option Meta
   parse : Meta → String → Option String
+  /-- order of raw key names used by `slices.Sorted` (Go: byte-wise `<=` on strings) -/
+  keyLe : String → String → Bool
 
 abbrev KV := String × String
 abbrev Sources := Src → List KV
@@ -102,22 +106,37 @@ def step (c : Ctx) (s : St) (t : Src × KV) : Option St :=
     else some s
   | some m =>
     if m.local_ && !src.isLocal then some s
+    else if src.prio < s.cur l then some s   -- shadowed: skipped before parsing
     else
       match valOf c m rawValue with
       | none => none
       | some v =>
-        if src.prio < s.cur l then some s
-        else some { fields := (l, v) :: s.fields, raws := (m.name, rawValue) :: s.raws,
-                    nts := (l, src.prio) :: s.nts }
+        some { fields := (l, v) :: s.fields, raws := (m.name, rawValue) :: s.raws,
+               nts := (l, src.prio) :: s.nts }
 
-/-- The key sequence `resolve` walks: sources in descending order, each source's keys in order. -/
-def flat (srcs : Sources) : List (Src × KV) :=
-  descending.flatMap (fun s => (srcs s).map (fun kv => (s, kv)))
+/-- `slices.Sorted(maps.Keys(rawConfig))`: the keys of one source in sorted order. -/
+def sortKeys (c : Ctx) (kvs : List KV) : List KV := kvs.mergeSort (fun a b => c.keyLe a.1 b.1)
+
+/-- The key sequence `resolve` walks: sources in descending order, each source's keys in sorted
+order. -/
+def flat (c : Ctx) (srcs : Sources) : List (Src × KV) :=
+  descending.flatMap (fun s => (sortKeys c (srcs s)).map (fun kv => (s, kv)))
 
 /-- `Config.resolve` up to (not including) the changed-fields computation. `none` = returned early
 with `config.Err` set. -/
 def resolve (c : Ctx) (srcs : Sources) : Option St :=
-  (flat srcs).foldlM (step c) St.empty
+  (flat c srcs).foldlM (step c) St.empty
+
+/-- `resolve` together with the loop state it leaves behind when it returns early (the fields
+written so far stay written; since the walk order is deterministic, so is that state). -/
+def stepP (c : Ctx) (acc : St × Bool) (t : Src × KV) : St × Bool :=
+  if acc.2 then acc
+  else match step c acc.1 t with
+    | none => (acc.1, true)
+    | some s => (s, false)
+
+def resolveP (c : Ctx) (srcs : Sources) : St × Bool :=
+  (flat c srcs).foldl (stepP c) (St.empty, false)
 
 /-! ### Config object: `UpdateFrom`, `UpdateFromConfigUpdate`, sticky `Err`, changed fields -/
 
@@ -125,20 +144,18 @@ def setSrc (srcs : Sources) (s : Src) (kvs : List KV) : Sources :=
   fun s' => if s' = s then kvs else srcs s'
 
 /-- `Config` as far as resolution is concerned.
-`fields`: current field values by lower-case name (absent = what `applyDefaults` leaves);
-`poisoned`: the last `resolve` returned early, so the fields are partly written in map order
-(not modelled: Felix exits). -/
+`fields`: current field values by lower-case name (absent = what `applyDefaults` leaves; after a
+failed `resolve`: the fields written before it returned); `err`: `config.Err != nil` (never reset). -/
 structure Cfg where
   srcs : Sources
   fields : List (String × Val)
   rawValues : List (String × String)
   err : Bool
-  poisoned : Bool
 
-def Cfg.new : Cfg := ⟨fun _ => [], [], [], false, false⟩
+def Cfg.new : Cfg := ⟨fun _ => [], [], [], false⟩
 
 inductive Changed where
-  | yes | no | unknown | failed
+  | yes | no | failed
 deriving DecidableEq, Repr
 
 /-- De-duplicated (newest binding wins) view of an association list, in first-occurrence order. -/
@@ -154,16 +171,17 @@ def changedNames (render : String → Option Val → String)
   let names := ((dedup old).map (·.1) ++ (dedup new).map (·.1)).eraseDups
   names.filter (fun l => render l (old.lookup l) != render l (new.lookup l))
 
-/-- Common tail of `UpdateFrom`/`UpdateFromConfigUpdate`: run `resolve`, update the object. -/
+/-- Common tail of `UpdateFrom`/`UpdateFromConfigUpdate`: run `resolve`, update the object.
+On failure the fields written so far stay, `rawValues` keeps its old value and `Err` is set. -/
 def Cfg.reresolve (c : Ctx) (render : String → Option Val → String) (cfg : Cfg) (srcs : Sources) :
     Cfg × Changed × List String :=
-  match resolve c srcs with
-  | none => ({ cfg with srcs := srcs, err := true, poisoned := true }, .failed, [])
-  | some st =>
-    let ch := changedNames render cfg.fields st.fields
-    let r := if cfg.poisoned then Changed.unknown else if ch.isEmpty then .no else .yes
-    ({ srcs := srcs, fields := dedup st.fields, rawValues := dedup st.raws, err := cfg.err,
-       poisoned := false }, r, ch)
+  let r := resolveP c srcs
+  if r.2 then
+    ({ srcs := srcs, fields := dedup r.1.fields, rawValues := cfg.rawValues, err := true }, .failed, [])
+  else
+    let ch := changedNames render cfg.fields r.1.fields
+    ({ srcs := srcs, fields := dedup r.1.fields, rawValues := dedup r.1.raws, err := cfg.err },
+      if ch.isEmpty then .no else .yes, ch)
 
 /-- `Config.UpdateFrom(rawData, source)`: empty values are dropped, the source's map is replaced. -/
 def Cfg.updateFrom (c : Ctx) (render : String → Option Val → String) (cfg : Cfg) (s : Src)
